@@ -63,19 +63,24 @@ def check_seeds(world, prop, nid, seeds, step, site, exact=True, in_successor_ok
     return [], hits
 
 
-def check_candidates(world, prop, nid, cands, step, site, exempt=None, what="candidates"):
+def check_candidates(world, prop, nid, cands, step, site, exempt=None, what="candidates", outside_successors=False):
     """Candidates must be full states inside the node and hit every attractor of own(node)
-    (minus `exempt` attractor indices)."""
+    (minus `exempt` attractor indices).  outside_successors: additionally, no candidate lies
+    inside a successor (what an expanded ordinary node's search guarantees by construction,
+    so a candidate there can only be a leftover from before the node had successors)."""
     ref = world.ref
     node_mv = world.node_mv(nid)
     sp = world.space_of(nid)
     hit = set()
+    succ_mvs = [world.node_mv(s) for s in world.sd.node_successors(nid, compute=False)] if outside_successors else []
     for c in cands:
         s = ref.state2int({k: v for k, v in c})
         if s is None:
             return [viol(prop, f"{what}_not_full_state", step, {"node": sp, "candidate": c}, site)]
         if not ref.in_space(s, node_mv):
             return [viol(prop, f"{what}_outside_node", step, {"node": sp, "candidate": c}, site)]
+        if any(ref.in_space(s, m) for m in succ_mvs):
+            return [viol(prop, f"{what}_inside_successor", step, {"node": sp, "candidate": c}, site)]
         k = ref.attractor_index_of(s)
         if k is not None:
             hit.add(k)
